@@ -14,6 +14,10 @@ class Skip(Exception):
     """Raised by a monitor to abandon the current case (not a violation)."""
 
 
+class HarnessError(Exception):
+    """An exception whose stack never entered the repository: a bug in the monitor, never a verdict."""
+
+
 def _jsonable(x, depth=0):
     import torch
 
@@ -86,6 +90,8 @@ class Ctx:
             self.samples.append(_jsonable(obj))
 
     def violation(self, mechanism, what, descriptor=None, detail=None):
+        if mechanism.startswith("exception.") and "@outside-inferno" in mechanism:
+            raise HarnessError(f"{mechanism}: {what} :: {json.dumps(_jsonable(detail))[:1500]}")
         self.violation_counts[mechanism] = self.violation_counts.get(mechanism, 0) + 1
         if self.violation_counts[mechanism] <= self.MAX_VIOL_PER_MECH:
             self.violations.append(
